@@ -2,4 +2,173 @@ import ZarrsModel.Model.Cache
 /- helper lemmas for C06 -/
 namespace Zarrs
 
+namespace Cache
+variable {α : Type}
+
+/-- a hit returns an entry that is stored in the cache under exactly the requested index -/
+theorem lookup_some_mem {c : Cache α} {i : Idx} {e : CacheEntry α} (h : c.lookup i = some e) :
+    (i, e) ∈ c := by
+  unfold lookup at h
+  cases hf : c.find? (·.1 == i) with
+  | none => simp [hf] at h
+  | some p =>
+    rw [hf] at h
+    simp only [Option.map_some, Option.some.injEq] at h
+    have hm := List.mem_of_find?_eq_some hf
+    have hp := List.find?_some hf
+    have hi : p.1 = i := by simpa using hp
+    obtain ⟨a, b⟩ := p
+    simp only at hi h
+    subst hi; subst h
+    exact hm
+
+/-- move-to-front only permutes: every entry after a touch was there before -/
+theorem mem_touch {c : Cache α} {i : Idx} {p : Idx × CacheEntry α} (h : p ∈ c.touch i) : p ∈ c := by
+  unfold touch at h
+  cases hf : c.find? (·.1 == i) with
+  | none => simpa [hf] using h
+  | some q =>
+    rw [hf] at h
+    simp only [List.mem_cons] at h
+    rcases h with h | h
+    · subst h; exact List.mem_of_find?_eq_some hf
+    · exact (List.mem_filter.mp h).1
+
+end Cache
+
+namespace ArrCfg
+variable {α : Type}
+
+/-- filling is exactly the uncached read, for both cache kinds -/
+theorem cacheDecode_of_cacheFill (cfg : ArrCfg α) (st : KV) (kind : CacheKind) (c : Idx)
+    (e : CacheEntry α) (h : cfg.cacheFill st kind c = some e) :
+    cfg.cacheDecode c e = cfg.retrieveChunk st c := by
+  cases kind with
+  | decoded =>
+    simp only [cacheFill] at h
+    cases hr : cfg.retrieveChunk st c with
+    | none => simp [hr] at h
+    | some xs =>
+      rw [hr] at h
+      simp only [Option.map_some, Option.some.injEq] at h
+      subst h
+      rfl
+  | encoded =>
+    simp only [cacheFill] at h
+    cases hs : cfg.chunkShape c with
+    | none => simp [hs] at h
+    | some s =>
+      rw [hs] at h
+      simp only [Option.some.injEq] at h
+      subst h
+      cases hg : st.get (cfg.keyOf c) with
+      | none => simp [cacheDecode, retrieveChunk, retrieveChunkIfExists, hs, hg]
+      | some b =>
+        cases hd : cfg.dec b with
+        | none => simp [cacheDecode, retrieveChunk, retrieveChunkIfExists, hs, hg, hd]
+        | some xs =>
+          by_cases hl : (xs.length == prod s) = true
+          · simp [cacheDecode, retrieveChunk, retrieveChunkIfExists, hs, hg, hd, hl]
+          · simp [cacheDecode, retrieveChunk, retrieveChunkIfExists, hs, hg, hd, hl]
+
+/-- a failed fill is a failed uncached read -/
+theorem retrieveChunk_none_of_cacheFill_none (cfg : ArrCfg α) (st : KV) (kind : CacheKind) (c : Idx)
+    (h : cfg.cacheFill st kind c = none) : cfg.retrieveChunk st c = none := by
+  cases kind with
+  | decoded =>
+    simp only [cacheFill] at h
+    cases hr : cfg.retrieveChunk st c with
+    | none => rfl
+    | some xs => simp [hr] at h
+  | encoded =>
+    simp only [cacheFill] at h
+    cases hs : cfg.chunkShape c with
+    | none => simp [retrieveChunk, hs]
+    | some s => simp [hs] at h
+
+/-- coherence is inherited by any cache whose entries all come from a coherent cache -/
+theorem CacheOk.of_subset {cfg : ArrCfg α} {st : KV} {kind : CacheKind} {c c' : Cache α}
+    (hc : cfg.CacheOk st kind c) (hsub : ∀ p ∈ c', p ∈ c) : cfg.CacheOk st kind c' :=
+  fun p hp => hc p (hsub p hp)
+
+theorem CacheOk.cons {cfg : ArrCfg α} {st : KV} {kind : CacheKind} {c : Cache α} {i : Idx}
+    {e : CacheEntry α} (hc : cfg.CacheOk st kind c) (he : cfg.cacheFill st kind i = some e) :
+    cfg.CacheOk st kind ((i, e) :: c) := by
+  intro p hp
+  rcases List.mem_cons.mp hp with h | h
+  · subst h; exact he
+  · exact hc p h
+
+/-- one cached read against a coherent cache, for an eviction policy that only drops entries -/
+theorem cachedRetrieveChunk_spec (cfg : ArrCfg α) (st : KV) (kind : CacheKind)
+    (evict : Cache α → Cache α) (hev : ∀ c, (evict c).Sublist c) (cache : Cache α)
+    (hc : cfg.CacheOk st kind cache) (c : Idx) :
+    (cfg.cachedRetrieveChunk st kind evict cache c).1 = cfg.retrieveChunk st c ∧
+    cfg.CacheOk st kind (cfg.cachedRetrieveChunk st kind evict cache c).2 := by
+  unfold cachedRetrieveChunk
+  cases hl : cache.lookup c with
+  | some e =>
+    have hm := Cache.lookup_some_mem hl
+    have hf : cfg.cacheFill st kind c = some e := hc _ hm
+    exact ⟨cfg.cacheDecode_of_cacheFill st kind c e hf, hc.of_subset (fun p hp => Cache.mem_touch hp)⟩
+  | none =>
+    cases hf : cfg.cacheFill st kind c with
+    | none => exact ⟨(cfg.retrieveChunk_none_of_cacheFill_none st kind c hf).symm, hc⟩
+    | some e =>
+      exact ⟨cfg.cacheDecode_of_cacheFill st kind c e hf,
+        (hc.cons hf).of_subset (fun p hp => (hev _).subset hp)⟩
+
+/-- a sequence of cached reads against a coherent cache -/
+theorem cachedReads_spec (cfg : ArrCfg α) (st : KV) (kind : CacheKind)
+    (evict : Cache α → Cache α) (hev : ∀ c, (evict c).Sublist c) (reads : List Idx) :
+    ∀ (cache : Cache α), cfg.CacheOk st kind cache →
+    (cfg.cachedReads st kind evict cache reads).1 = reads.map (cfg.retrieveChunk st) ∧
+    cfg.CacheOk st kind (cfg.cachedReads st kind evict cache reads).2 := by
+  induction reads with
+  | nil => intro cache hc; exact ⟨rfl, hc⟩
+  | cons c cs ih =>
+    intro cache hc
+    obtain ⟨h1, h2⟩ := cfg.cachedRetrieveChunk_spec st kind evict hev cache hc c
+    obtain ⟨h3, h4⟩ := ih _ h2
+    simp only [cachedReads, List.map_cons]
+    exact ⟨by rw [h1, h3], h4⟩
+
+end ArrCfg
+/-! ### fixtures for the non-vacuity examples of `Props/C06.lean`
+
+A 1-D array of shape `[4]` on the regular grid `[Dim.fixed 2]` (two chunks `[0]`, `[1]`), identity codec,
+a store holding the encoded chunk `[0]` (chunk `[1]` is absent and reads as fill), and one coherent cache of
+each kind holding chunk `[0]`.  The eviction policy is LRU by count with capacity 1. -/
+namespace C06.Ex
+
+def cfg : ArrCfg Nat where
+  shape := [4]
+  grid := [Dim.fixed 2]
+  fill := 0
+  keyOf := fun c => 'c' :: c.map (fun n => Char.ofNat (48 + n))
+  enc := id
+  dec := some
+  storeEmpty := false
+
+def st : KV := [(['c', '0'], [7, 9])]
+
+def cacheEnc : Cache Nat := [([0], CacheEntry.encoded (some [7, 9]))]
+def cacheDec : Cache Nat := [([0], CacheEntry.decoded [7, 9])]
+
+def evict1 : Cache Nat → Cache Nat := fun c => c.take 1
+
+theorem cacheEnc_ok : cfg.CacheOk st .encoded cacheEnc := by
+  intro p hp
+  simp only [cacheEnc, List.mem_singleton] at hp
+  subst hp
+  rfl
+
+theorem cacheDec_ok : cfg.CacheOk st .decoded cacheDec := by
+  intro p hp
+  simp only [cacheDec, List.mem_singleton] at hp
+  subst hp
+  rfl
+
+end C06.Ex
+
 end Zarrs
